@@ -250,7 +250,11 @@ def run(ctx, replay=None):
           "rsp_row": "RandomizedSketchProjectPseudoinverse.compute_row_variant", "hybrid": "HybridRSPNewtonSchulz.compute", "cgne": "CGNEQSolver.compute"}
     for tid_, clause in bad:
         e = byid[tid_]
+        if clause.startswith("M:"):
+            ctx.drift.append("%s %s %s" % (clause, e["solver"], e["cfg"]))
+            continue
         ctx.fail(fn[e["solver"]], clause, "cond<=%g" % (10 ** round(e["cond_lg"] / 64 / math.log2(10))), e)
+    ctx.drift = sorted(set(ctx.drift))[:10]
     for e in events:
         ctx.case((e["tid"],))
     ctx.replays = len(events)
